@@ -1,6 +1,8 @@
 package symex
 
 import (
+	"sort"
+	"regexp"
 	"fmt"
 	"go/ast"
 	"go/constant"
@@ -27,12 +29,28 @@ type Scope struct {
 	Iter   map[int]string // loop ordinal -> number of completed iterations (range loops)
 	At     map[int]map[string]Val // loop ordinal -> header phi values by source name
 	IsOld  bool                   // evaluating inside old(...)
+	// EntryVars: inside old(...), parameters denote their entry values (a parameter may be
+	// re-assigned in the body; in a loop invariant the plain name is the current value)
+	EntryVars map[string]Val
+	// final values of the named locals of the function at the return (post-conditions)
+	Locals     map[string]Val
+	LocalsAddr map[string]bool
 }
 
 func (sc *Scope) with(st *State) *Scope {
 	n := *sc
 	n.St = st
 	n.IsOld = true
+	if len(sc.EntryVars) > 0 {
+		n.Vars = map[string]Val{}
+		for k, v := range sc.Vars {
+			n.Vars[k] = v
+		}
+		for k, v := range sc.EntryVars {
+			n.Vars[k] = v
+			delete(n.Addr, k)
+		}
+	}
 	return &n
 }
 
@@ -52,6 +70,20 @@ func (ex *Exec) EvalInt(sc *Scope, c contract.Clause) string {
 		panic(fmt.Errorf("%s:%d: clause %q is not an integer (%T)", c.File, c.Line, c.Text, v))
 	}
 	return b.T
+}
+
+var reBoundVar = regexp.MustCompile(`[A-Za-z_][A-Za-z0-9_]*\?[0-9]+`)
+
+func alphaNormal(t string) string {
+	idx := map[string]string{}
+	return reBoundVar.ReplaceAllStringFunc(t, func(m string) string {
+		if n, ok := idx[m]; ok {
+			return n
+		}
+		n := fmt.Sprintf("?b%d", len(idx))
+		idx[m] = n
+		return n
+	})
 }
 
 func specErr(e ast.Expr, format string, a ...interface{}) {
@@ -336,7 +368,9 @@ func (ex *Exec) specCall(sc *Scope, e *ast.CallExpr) Val {
 		v := ex.evalSpec(sc.with(sc.Old), e.Args[0])
 		// quantified old-values are named once (same constant at every use)
 		if b, isB := v.(Bool); isB && (strings.Contains(b.T, "(exists ") || strings.Contains(b.T, "(forall ")) && len(sc.Bound) == 0 {
-			key := "old:" + exprText(e.Args[0])
+			// keyed by the term up to the names of bound variables: the same old-value
+			// gets the same constant, a different one (other locals) a different constant
+			key := "old:" + alphaNormal(b.T)
 			ex.mu.Lock()
 			c, seen := ex.oldNames[key]
 			ex.mu.Unlock()
@@ -453,6 +487,70 @@ func (ex *Exec) specCall(sc *Scope, e *ast.CallExpr) Val {
 			specErr(e, "D: argument is not a reference")
 		}
 		return Bool{smt.Sel(d, r)}
+	case "scanbounds":
+		// every scanner of this path is at a position between 0 and the number of lines
+		var cs []string
+		fns := ex.scanFns()
+		for k, v := range sc.St.Ghost {
+			if strings.HasPrefix(k, "scanpos:") {
+				cs = append(cs, smt.And(smt.Le("0", v), smt.Le(v, smt.App(fns[0], strings.TrimPrefix(k, "scanpos:")))))
+			}
+		}
+		sort.Strings(cs)
+		return Bool{smt.And(cs...)}
+	case "allscanned":
+		// every bufio.Scanner created on this path has passed all the lines of its reader
+		var cs []string
+		fns := ex.scanFns()
+		for k, v := range sc.St.Ghost {
+			if strings.HasPrefix(k, "scanpos:") {
+				cs = append(cs, smt.Eq(v, smt.App(fns[0], strings.TrimPrefix(k, "scanpos:"))))
+			}
+		}
+		sort.Strings(cs)
+		return Bool{smt.And(cs...)}
+	case "HV":
+		hv, ok := sc.St.Ghost["HV"]
+		if !ok {
+			specErr(e, "HV() used outside a rulesmerge contract")
+		}
+		return Int{hv}
+	case "pairstable":
+		// neither branch of the merge loop fires on the pair (x, y) in the current heap version
+		hv, ok := sc.St.Ghost["HV"]
+		if !ok {
+			specErr(e, "pairstable() used outside a rulesmerge contract")
+		}
+		x, okx := ex.refOf(sc.St, arg(0))
+		y, oky := ex.refOf(sc.St, arg(1))
+		if !okx || !oky {
+			specErr(e, "pairstable: arguments are not references")
+		}
+		mr := ex.Ctx.Declare("mergeres", []string{"Int", "Ref", "Ref"}, "Bool")
+		kx, ky := smt.App("kindof", smt.App("dyn", x)), smt.App("kindof", smt.App("dyn", y))
+		dup := smt.And(smt.Neq(kx, ex.StrLit("comment")), smt.Eq(smt.App("cmprule", hv, x, y), "0"))
+		return Bool{smt.And(
+			smt.Not(smt.And(smt.Eq(x, NilRef), smt.Eq(y, NilRef))),
+			smt.Imp(smt.And(smt.Neq(x, NilRef), smt.Neq(y, NilRef), smt.Eq(kx, ky)),
+				smt.And(smt.Not(dup), smt.Not(smt.App(mr, hv, x, y)))))}
+	case "forall2":
+		// forall2(a, b, cond, body): one quantifier over two integers
+		ida, oka := e.Args[0].(*ast.Ident)
+		idb, okb := e.Args[1].(*ast.Ident)
+		if !oka || !okb {
+			specErr(e, "forall2: the first two arguments must be identifiers")
+		}
+		ba, bb := ex.boundName(ida.Name), ex.boundName(idb.Name)
+		n := *sc
+		n.Bound = map[string]Val{}
+		for k, v := range sc.Bound {
+			n.Bound[k] = v
+		}
+		n.Bound[ida.Name] = Int{ba}
+		n.Bound[idb.Name] = Int{bb}
+		cond := ex.evalSpec(&n, e.Args[2]).(Bool).T
+		body := ex.evalSpec(&n, e.Args[3]).(Bool).T
+		return Bool{smt.Forall([][2]string{{ba, "Int"}, {bb, "Int"}}, smt.Imp(cond, body))}
 	case "as":
 		want, _ := strconv.Unquote(e.Args[1].(*ast.BasicLit).Value)
 		v := arg(0)
@@ -504,7 +602,7 @@ func (ex *Exec) specCall(sc *Scope, e *ast.CallExpr) Val {
 		case "regexp.MustCompile":
 			f := ex.Ctx.Declare(fmt.Sprintf("ext_%s_0", name), sorts, "Ref")
 			return Ptr{Ref: smt.App(f, terms...)}
-		case "strings.Contains", "strings.HasPrefix", "strings.HasSuffix":
+		case "strings.Contains", "strings.HasPrefix", "strings.HasSuffix", "(*regexp.Regexp).MatchString":
 			ret = "Bool"
 		case "strings.Split", "strings.Fields":
 			fa := ex.Ctx.Declare(fmt.Sprintf("ext_%s_0_arr", name), sorts, "(Array Int Str)")
@@ -594,6 +692,25 @@ func (ex *Exec) specCall(sc *Scope, e *ast.CallExpr) Val {
 		return arg(0).(Tuple)[0]
 	case "second":
 		return arg(0).(Tuple)[1]
+	case "final":
+		// final(x): the value of the local variable x when the function returns
+		id, ok := e.Args[0].(*ast.Ident)
+		if !ok || sc.Locals == nil {
+			specErr(e, "final(x) needs a local variable name and a post-condition")
+		}
+		v, ok := sc.Locals[id.Name]
+		if !ok {
+			specErr(e, "final(%s): no such local at this return", id.Name)
+		}
+		if sc.LocalsAddr[id.Name] {
+			p := v.(Ptr)
+			return ex.Load(sc.St, p, typeAt(p.Root, p.Path))
+		}
+		return v
+	case "before":
+		// the text of arg 0 before the first occurrence of arg 1
+		sb := ex.Ctx.Declare("sbefore", []string{"Str", "Str"}, "Str")
+		return Str{smt.App(sb, arg(0).(Str).T, arg(1).(Str).T)}
 	case "hasPrefix":
 		return Bool{ex.HasPrefix(arg(0).(Str).T, arg(1).(Str).T)}
 	case "concat":
@@ -646,6 +763,38 @@ func (ex *Exec) specCall(sc *Scope, e *ast.CallExpr) Val {
 					}
 				}
 			}
+		}
+	}
+	// pure function or method of an imported package: util.F(x), util.T.M(recv, x)
+	if sel, ok := e.Fun.(*ast.SelectorExpr); ok && sc.Pkg != nil {
+		importOf := func(x ast.Expr) *ssa.Package {
+			id, ok := x.(*ast.Ident)
+			if !ok {
+				return nil
+			}
+			for _, imp := range sc.Pkg.Pkg.Imports() {
+				if imp.Name() == id.Name {
+					return ex.Prog.SSA.Package(imp)
+				}
+			}
+			return nil
+		}
+		var target *ssa.Function
+		if ip := importOf(sel.X); ip != nil {
+			target = ip.Func(sel.Sel.Name)
+		} else if inner, ok := sel.X.(*ast.SelectorExpr); ok {
+			if ip := importOf(inner.X); ip != nil {
+				if tn, ok := ip.Pkg.Scope().Lookup(inner.Sel.Name).(*types.TypeName); ok {
+					target = ex.lookupMethod(tn.Type(), ip.Pkg, sel.Sel.Name)
+				}
+			}
+		}
+		if target != nil {
+			var args []Val
+			for i := range e.Args {
+				args = append(args, arg(i))
+			}
+			return ex.PureApp(sc.St, target, args)
 		}
 	}
 	specErr(e, "unknown function %q in contract expression", fname)
